@@ -1,6 +1,6 @@
 (* Corr/C11.v -- correspondence runner for C11: each case carries the implementation's observed
    result; [check] recomputes it with the model. *)
-From TV Require Import Base.I32 Base.F32 Model.Ops Model.Expr Gen.OpTable.
+From TV Require Import Base.I32 Base.F32 Model.Ops Model.Expr Spec.MachineOps Gen.OpTable.
 Open Scope Z_scope.
 
 Inductive ires (A : Type) := IOk (a : A) | IErr | IPanic.
@@ -108,4 +108,37 @@ Fixpoint mismatches (n : N) (l : list c11case) : list N :=
   match l with
   | [] => []
   | c :: t => if model_of c then mismatches (n + 1) t else n :: mismatches (n + 1) t
+  end.
+
+(* The same operator cases against the independent specification (Spec/MachineOps.v) instead of
+   the generated table: when the table-vs-spec theorem breaks, this finds the operand pair. *)
+Definition spec_bf (op : binop) : bf_term :=
+  match op with
+  | Add => BF_add | Sub => BF_sub | Mul => BF_mul | Div => BF_div | Rem => BF_rem
+  | Eq => BF_eq | Ne => BF_ne | Lt => BF_lt | Le => BF_le | Gt => BF_gt | Ge => BF_ge
+  | _ => BF_typeerr
+  end.
+
+Definition spec_of (c : c11case) : bool :=
+  match c with
+  | KBin op (VInt a) (VInt b) r =>
+      match spec_bi op a b, r with
+      | Some z, IOk (VInt z') => z =? z'
+      | None, IPanic => true          (* the operator itself is undefined; its callers guard it *)
+      | _, _ => false
+      end
+  | KBin op (VFloat a) (VFloat b) r => agree value_eqb (eval_bf (spec_bf op) a b) r
+  | KUn op (VInt a) r =>
+      match spec_ui op a, r with
+      | Some z, IOk (Some (VInt z')) => z =? z'
+      | Some _, _ => false
+      | None, _ => true
+      end
+  | _ => true
+  end.
+
+Fixpoint spec_mismatches (n : N) (l : list c11case) : list N :=
+  match l with
+  | [] => []
+  | c :: t => if spec_of c then spec_mismatches (n + 1) t else n :: spec_mismatches (n + 1) t
   end.
